@@ -78,6 +78,21 @@ type tcase struct {
 	pins    []string
 	npeers  int
 	gcKeys  []string
+
+	// round 8: non-default proxy configuration and a slow daemon (all in ms; rhMs == 0: default configuration)
+	rhMs, idleMs   int // read_header_timeout, idle_timeout
+	delayMs, gapMs int // the daemon answers after delayMs and pauses gapMs in the middle of its body
+}
+
+func (c *tcase) slowTokens() string {
+	if c.rhMs == 0 && c.delayMs == 0 && c.gapMs == 0 {
+		return ""
+	}
+	rh, idle := c.rhMs, c.idleMs
+	if rh == 0 {
+		rh, idle = int(ipfsproxy.DefaultReadHeaderTimeout/time.Millisecond), int(ipfsproxy.DefaultIdleTimeout/time.Millisecond)
+	}
+	return fmt.Sprintf(" cf=%d:%d dl=%d:%d", rh, idle, c.delayMs, c.gapMs)
 }
 
 type dreq struct {
@@ -96,6 +111,7 @@ type observation struct {
 	dreqs  []dreq
 	rpcs   []string
 	note   string // "" or infrastructure problem
+	cut    bool   // the proxy closed the connection before a complete response arrived
 }
 
 func hx(b []byte) string  { return hex.EncodeToString(b) }
@@ -179,9 +195,32 @@ func (d *daemon) ServeHTTP(w http.ResponseWriter, r *http.Request) {
 		w.WriteHeader(500)
 		return
 	}
+	if c.delayMs > 0 {
+		// a daemon that takes its time before it starts answering (name/publish, dht/*, cat of remote content)
+		select {
+		case <-time.After(time.Duration(c.delayMs) * time.Millisecond):
+		case <-r.Context().Done():
+			return // the relay gave up on us
+		}
+	}
 	w.Header().Set("X-Daemon-Hdr", c.dHdr)
 	w.Header().Set("Content-Type", "application/octet-stream")
 	w.WriteHeader(c.dStatus)
+	if c.gapMs > 0 {
+		// a daemon that streams: half of the body, a pause, the rest
+		h := len(c.dBody) / 2
+		w.Write(c.dBody[:h])
+		if f, ok := w.(http.Flusher); ok {
+			f.Flush()
+		}
+		select {
+		case <-time.After(time.Duration(c.gapMs) * time.Millisecond):
+		case <-r.Context().Done():
+			return
+		}
+		w.Write(c.dBody[h:])
+		return
+	}
 	w.Write(c.dBody)
 }
 
@@ -447,7 +486,7 @@ func freePort() int {
 	return l.Addr().(*net.TCPAddr).Port
 }
 
-func (w *world) startProxy() (*ipfsproxy.Server, string, error) {
+func (w *world) startProxy(c *tcase) (*ipfsproxy.Server, string, error) {
 	var lastErr error
 	for try := 0; try < 20; try++ {
 		port := freePort()
@@ -456,6 +495,10 @@ func (w *world) startProxy() (*ipfsproxy.Server, string, error) {
 		}
 		cfg := &ipfsproxy.Config{}
 		cfg.Default()
+		if c.rhMs > 0 {
+			cfg.ReadHeaderTimeout = time.Duration(c.rhMs) * time.Millisecond
+			cfg.IdleTimeout = time.Duration(c.idleMs) * time.Millisecond
+		}
 		dport := w.d.ln.Addr().(*net.TCPAddr).Port
 		cfg.NodeAddr, _ = ma.NewMultiaddr(fmt.Sprintf("/ip4/127.0.0.1/tcp/%d", dport))
 		la, _ := ma.NewMultiaddr(fmt.Sprintf("/ip4/127.0.0.1/tcp/%d", port))
@@ -532,7 +575,7 @@ func (w *world) exec(c *tcase) (obs observation) {
 	w.rec.cur, w.rec.calls = c, nil
 	w.rec.mu.Unlock()
 
-	p, addr, err := w.startProxy()
+	p, addr, err := w.startProxy(c)
 	if err != nil {
 		obs.note = "proxy-start:" + err.Error()
 		return
@@ -557,14 +600,31 @@ func (w *world) exec(c *tcase) (obs observation) {
 		obs.note = "write:" + err.Error()
 		return
 	}
+	collect := func() {
+		p.Shutdown(context.Background())
+		tracker.settle()
+		w.d.mu.Lock()
+		obs.dreqs = append([]dreq(nil), w.d.record...)
+		w.d.mu.Unlock()
+		w.rec.mu.Lock()
+		obs.rpcs = append([]string(nil), w.rec.calls...)
+		w.rec.mu.Unlock()
+	}
 	res, err := http.ReadResponse(bufio.NewReader(conn), &http.Request{Method: c.method})
 	if err != nil {
 		obs.note = "read:" + err.Error()
+		obs.cut = true
+		collect()
 		return
 	}
 	body, err := io.ReadAll(res.Body)
 	if err != nil {
 		obs.note = "readbody:" + err.Error()
+		obs.cut = true
+		obs.status = res.StatusCode
+		obs.body = body
+		obs.dhdr = res.Header.Get("X-Daemon-Hdr")
+		collect()
 		return
 	}
 	res.Body.Close()
@@ -827,7 +887,7 @@ func inputTokens(c *tcase) string {
 	if len(c.fails) > 0 {
 		f = strings.Join(c.fails, ",")
 	}
-	return fmt.Sprintf("%s p=%s q=%s h=%s b=%s ds=%d:%s:%s f=%s pc=%s rc=%s pins=%s np=%d gc=%s or=%s ing=%d xp=%s dx=%s",
+	return fmt.Sprintf("%s p=%s q=%s h=%s b=%s ds=%d:%s:%s f=%s pc=%s rc=%s pins=%s np=%d gc=%s or=%s ing=%d xp=%s dx=%s"+c.slowTokens(),
 		c.method, hxs(c.path), qTok(c.query), hdrTok(c.hdrs), hx(c.body), c.dStatus, hx(c.dBody), hxs(c.dHdr), f,
 		hxs(c.pinCid), hxs(c.resCid), hxList(c.pins), c.npeers, hxList(c.gcKeys), oracles(c), ingest(c),
 		hxs(ipfsproxy.DefaultExtractHeadersPath), daemonWouldRun(c))
@@ -862,6 +922,16 @@ func (w *world) runCase(out *common.Out, c *tcase) {
 	}
 	if o.note == "" && o.status == 502 && len(o.dreqs) == 0 && c.dStatus != 502 {
 		o.note = "proxy-could-not-dial-daemon"
+	}
+	if o.note != "" && o.cut && (c.delayMs > 0 || c.gapMs > 0) && len(o.dreqs) > 0 {
+		// three times in a row the proxy cut the client off while the (slow) daemon was being asked: that is the
+		// behaviour of the code under test, not an infrastructure problem. Reported as status 0 / what arrived.
+		if !strings.HasPrefix(o.note, "readbody:") {
+			o.status, o.body, o.dhdr = 0, nil, ""
+		} else {
+			o.status = 0
+		}
+		o.note = ""
 	}
 	if o.note != "" {
 		out.Line("# inconclusive %s :: %s", o.note, inputTokens(c))
@@ -976,6 +1046,20 @@ func parseLine(line string) (*tcase, error) {
 		case "gc":
 			c.gcKeys, err = parseHexList(v)
 			sort.Strings(c.gcKeys)
+		case "cf", "dl":
+			parts := strings.Split(v, ":")
+			if len(parts) != 2 {
+				return nil, errors.New(k)
+			}
+			var a, b int
+			if a, err = strconv.Atoi(parts[0]); err == nil {
+				b, err = strconv.Atoi(parts[1])
+			}
+			if k == "cf" {
+				c.rhMs, c.idleMs = a, b
+			} else {
+				c.delayMs, c.gapMs = a, b
+			}
 		case "or", "ing", "xp", "dx":
 			// recomputed
 		default:
@@ -1621,7 +1705,27 @@ func gen(r *common.Rng, thorough bool) *tcase {
 	default:
 		genMalformed(r, c)
 	}
+	// round 8: now and then the same request meets a proxy with small configured timeouts and a daemon that is
+	// slower than every one of them (drawn after the case itself, so the other cases of a seed are unchanged)
+	if r.Chance(1, 150) {
+		makeSlow(r, c)
+	}
 	return c
+}
+
+func makeSlow(r *common.Rng, c *tcase) {
+	c.rhMs = []int{200, 300}[r.Intn(2)]
+	c.idleMs = []int{50, 100, 150, 60000}[r.Intn(4)]
+	switch x := r.Intn(20); {
+	case x < 10: // slower than read_header_timeout and idle_timeout before the first byte
+		c.delayMs = 2*c.rhMs + 100
+	case x < 13: // slow, but faster than every timeout
+		c.delayMs = c.rhMs / 5
+	case x < 17: // prompt header, then a pause in the body longer than every timeout
+		c.gapMs = 2*c.rhMs + 50
+	default:
+		c.delayMs, c.gapMs = 2*c.rhMs+100, c.rhMs+50
+	}
 }
 
 func main() {
